@@ -429,6 +429,7 @@ type c20Case struct {
 	Seed      int64         `json:"seed"`
 	Pre       []c20Op       `json:"pre,omitempty"` // run first, in a child of its own, without strace
 	Quiet     bool          `json:"quiet"`
+	Needs     []string      `json:"needs,omitempty"` // privileges without which the case cannot run: strace | mount | root
 }
 
 type c20KillTrial struct {
@@ -457,8 +458,45 @@ type c20Out struct {
 	Kills   []c20KillTrial `json:"kills,omitempty"`
 	Interv  string         `json:"interv,omitempty"`
 	PreRes  []c20Res       `json:"pre_res,omitempty"`
+	Skipped string         `json:"skipped,omitempty"` // the privilege whose absence made the harness skip this case
+	Straced bool           `json:"straced"`
+	Caps    c20Caps        `json:"caps"`
 	PostLs  [][]c20Ent     `json:"post_ls"` // listing of every directory by the parent after the child ended
 	Elapsed float64        `json:"elapsed"`
+}
+
+// what the environment lets the harness do; VERIF_C20_NOPRIV=1 (or a list "strace,mount,root")
+// pretends the privileges are missing
+type c20Caps struct {
+	Strace bool `json:"strace"` // ptrace: strace can run a child
+	Mount  bool `json:"mount"`  // CAP_SYS_ADMIN: private mount namespace with a tmpfs
+	Root   bool `json:"root"`   // effective uid 0: the store can be run as an unprivileged uid
+}
+
+var c20caps c20Caps
+
+func c20Probe() c20Caps {
+	c := c20Caps{}
+	c.Root = os.Geteuid() == 0
+	if err := exec.Command("strace", "-f", "-o", "/dev/null", "-e", "trace=none", "/bin/true").Run(); err == nil {
+		c.Strace = true
+	}
+	cmd := exec.Command("/bin/sh", "-c", "d=$(mktemp -d) && mount -t tmpfs -o size=64k tmpfs $d")
+	cmd.SysProcAttr = &syscall.SysProcAttr{Unshareflags: syscall.CLONE_NEWNS}
+	if err := cmd.Run(); err == nil {
+		c.Mount = true
+	}
+	np := os.Getenv("VERIF_C20_NOPRIV")
+	if np == "1" || strings.Contains(np, "strace") {
+		c.Strace = false
+	}
+	if np == "1" || strings.Contains(np, "mount") {
+		c.Mount = false
+	}
+	if np == "1" || strings.Contains(np, "root") {
+		c.Root = false
+	}
+	return c
 }
 
 func c20Subst(s string, dirs []string) string {
@@ -506,7 +544,20 @@ func c20ChildCmd(specPath string, c *c20Case, tracePath string) *exec.Cmd {
 
 func c20RunCase(t *testing.T, c *c20Case, base string) c20Out {
 	t0 := time.Now()
-	out := c20Out{Name: c.Name}
+	out := c20Out{Name: c.Name, Caps: c20caps}
+	for _, n := range c.Needs {
+		if (n == "strace" && !c20caps.Strace) || (n == "mount" && !c20caps.Mount) || (n == "root" && !c20caps.Root) {
+			out.Skipped = n
+			out.Exit = "skipped"
+			return out
+		}
+	}
+	if c.Strace && !c20caps.Strace {
+		cc := *c
+		cc.Strace = false // the store still runs; only the system-call trace is not observed
+		c = &cc
+	}
+	out.Straced = c.Strace
 	for i := 0; i < c.NDirs; i++ {
 		d := filepath.Join(base, fmt.Sprintf("d%d", i))
 		_ = os.MkdirAll(d, 0o755)
@@ -800,6 +851,7 @@ func TestVerifC20(t *testing.T) {
 		t.Fatal(err)
 	}
 	outs := make([]c20Out, len(cases))
+	c20caps = c20Probe()
 	root := t.TempDir()
 	_ = os.Chmod(root, 0o755)
 	_ = os.Chmod(filepath.Dir(root), 0o755)
